@@ -66,6 +66,12 @@ Section AnyEngine.
     SrcDen (S (S f)) p (Fin (ref_geom a m n)).
   Proof. exact (src_geom_built binop LMAX). Qed.
 
+  (* PSequence(list of scalars, repeats) = the list, repeats times: __next__ as written (the list read through
+     Pattern.value(self.sequence), the items through Pattern.value(sequence[self.pos])) *)
+  Theorem C10_src_sequence : forall f (l : list val) (r : nat),
+    SrcDen (S (S f)) (PSequence (AL (map AV l)) (AV (VInt (Z.of_nat r))) 0 0) (Fin (ref_sequence l r)).
+  Proof. exact (src_sequence_den binop LMAX). Qed.
+
   Theorem C10_src_constant : forall f c, SrcDen (S f) (PConstant c) (Inf (fun _ => c)).
   Proof. exact (src_constant_den binop LMAX). Qed.
 
@@ -109,6 +115,7 @@ Print Assumptions C10_src_range.
 Print Assumptions C10_src_range_built.
 Print Assumptions C10_src_geom.
 Print Assumptions C10_src_geom_built.
+Print Assumptions C10_src_sequence.
 Print Assumptions C10_src_constant.
 Print Assumptions C10_src_stutter.
 Print Assumptions C10_src_pad.
